@@ -199,6 +199,8 @@ def check_case(case):
             if fz.time == 12345 and m.time != 12345:
                 out.append(fail('thaw-aliasing', 'assigning on the thawed message changed the frozen one', **facts))
             th2 = thaw_message(fz)
+            if th2 is th or th2.time == 12345 and m.time != 12345:
+                out.append(fail('thaw-aliasing', 'two thaws of one frozen message share state', **facts))
             rp = repr(th2)
             th2.copy(time=1)
             th2.bytes()
